@@ -62,9 +62,9 @@ def selftest():
     x = np.array([0.0, 1.0, 3.0])
     p = np.array([1.0, 1.0, 1.0])
     pc = cumulative_ref(x, p)
-    if [float(v) for v in pc] != [1.0 / 3.0, 1.0] and abs(float(pc[0]) - 1.0 / 3.0) > 1e-18:
+    if abs(float(pc[0]) - 1.0 / 3.0) > 1e-16 or float(pc[1]) != 1.0:
         raise RuntimeError("reference cumulative is wrong")
-    v = inverse_ref(x[1:], pc, np.array([0.5, 1.0]))
+    v, _ = inverse_ref(x[1:], pc, np.array([0.5, 1.0]))
     if abs(float(v[0]) - 1.5) > 1e-15 or abs(float(v[1]) - 3.0) > 1e-15:
         raise RuntimeError("reference inverse is wrong")
 
